@@ -2,6 +2,8 @@
 methods, external objects."""
 from __future__ import annotations
 
+import re
+
 from . import apitable as A
 from .api_numpy import (
     _L,
@@ -50,6 +52,12 @@ def shape(v):
 # -- constructors -----------------------------------------------------------
 
 
+def _index_like(x):
+    """integer-valued by construction (index vectors, counts): a cast to int keeps the values"""
+    t = x.term
+    return isinstance(t, Term) and t.op in ("arange", "nonzero1", "argsort", "argmax", "argmin", "unique", "setdiff1d", "where", "cumsum", "block_labels", "count", "rng")
+
+
 def _dtype_tag(dt, fill=None):
     if dt is not None and dt.kind != "none":
         t = dt.term
@@ -58,6 +66,8 @@ def _dtype_tag(dt, fill=None):
             return "bool"
         if "int" in s:
             return "int"
+        if re.search(r"float16|float32|half|single|'f[24]'|'<f[24]'", s):
+            return "float32"  # a reduced-precision buffer inside a double-precision computation
         if "float" in s:
             return None
         # a dtype taken from caller data (e.g. X.dtype) is kept symbolically: the value may be
@@ -78,6 +88,8 @@ def np_zeros(interp, name, args, kw, st, node):
     b = bind(["shape", "dtype"], args, kw)
     dims = dims_from_shape_arg(b["shape"])
     tag = _dtype_tag(b.get("dtype"))
+    if tag == "float32":
+        interp.event("shape-conflict", node, st, what="precision-loss: reduced-precision buffer", a=name, b="float32")
     base = name.rsplit(".", 1)[1]
     if base == "empty":
         base = "zeros"
@@ -162,7 +174,29 @@ def np_array(interp, name, args, kw, st, node):
     return V("arr", x.term, shape=sh, orig=frozenset([FRESH]), labels=x.labels, loc=fresh_id(), extra=tag)
 
 
-@reg("numpy.asarray", "numpy.asarray_chkfinite", "numpy.asanyarray", "numpy.ascontiguousarray", "numpy.real", "numpy.atleast_1d", "numpy.squeeze", "sklearn.utils.validation.as_float_array", "sklearn.utils.as_float_array", "numpy.asfortranarray")
+@reg("numpy.squeeze")
+def np_squeeze(interp, name, args, kw, st, node):
+    b = bind(["a", "axis"], args, kw)
+    x = arrv(b["a"])
+    sh = shape(x)
+    ax = b.get("axis")
+    if sh is None:
+        return fresh_arr(T("squeeze", x.term), None, x.labels)
+    if ax is not None and ax.kind != "none":
+        if not (ax.has_const and isinstance(ax.const, int)):
+            return fresh_arr(T("squeeze", x.term, ax.term), None, x.labels)
+        k = ax.const % len(sh) if sh else 0
+        drop = [k]
+    else:
+        # axes of extent exactly 1 (an axis of symbolic extent is kept: the generic case)
+        drop = [i for i, d in enumerate(sh) if d.is_const() and d.c == 1]
+    if not drop:
+        return x
+    nsh = tuple(d for i, d in enumerate(sh) if i not in drop)
+    return V("arr", T("reshape1", x.term, *shape_terms(nsh)), shape=nsh, orig=x.orig, labels=x.labels, loc=x.loc, extra=x.extra if isinstance(x.extra, str) else None)
+
+
+@reg("numpy.asarray", "numpy.asarray_chkfinite", "numpy.asanyarray", "numpy.ascontiguousarray", "numpy.real", "numpy.atleast_1d", "sklearn.utils.validation.as_float_array", "sklearn.utils.as_float_array", "numpy.asfortranarray")
 def np_asarray(interp, name, args, kw, st, node):
     x = arrv(args[0])
     if x.kind == "arr":
@@ -326,6 +360,11 @@ def np_isin(interp, name, args, kw, st, node):
     t = T("isin", x.term, y.term)
     if flag:
         t = T("invert", t)
+        d = _complement_extent(x, b["test_elements"])
+        if d is not None:
+            if not hasattr(interp, "_isin_extent"):
+                interp._isin_extent = {}
+            interp._isin_extent[t] = d  # number of True entries (used by flatnonzero)
     return fresh_arr(t, shape(x), x.labels | y.labels, "bool")
 
 
@@ -651,16 +690,42 @@ def np_argsort(interp, name, args, kw, st, node):
     return v
 
 
+def _complement_extent(rng_v, excl_v):
+    """len(setdiff1d(arange(n), idx)) = n - k for k distinct non-negative constant indices (taken to be
+    in range: an index beyond the axis is rejected by the callers' own validation)"""
+    t = rng_v.term
+    sh = shape(rng_v)
+    if not (isinstance(t, Term) and t.op == "arange" and len(t.args) == 1 and sh is not None and len(sh) == 1):
+        return None
+    items = excl_v.items if excl_v.kind in ("list", "tuple") else None
+    if items is None or not all(i.has_const and isinstance(i.const, int) and not isinstance(i.const, bool) and i.const >= 0 for i in items):
+        return None
+    if len({i.const for i in items}) != len(items):
+        return None
+    d = sh[0] - len(items)
+    return d if d.known() else None
+
+
 @reg("numpy.flatnonzero")
 def np_flatnonzero(interp, name, args, kw, st, node):
     x = arrv(args[0])
-    return fresh_arr(T("nonzero1", x.term), (Dim.unknown("where"),), x.labels, "int")
+    ext = Dim.unknown("where")
+    if isinstance(x.term, Term) and x.term.op == "invert" and isinstance(x.term.args[0], Term) and x.term.args[0].op == "isin":
+        d = getattr(interp, "_isin_extent", {}).get(x.term)
+        if d is not None:
+            ext = d
+    return fresh_arr(T("nonzero1", x.term), (ext,), x.labels, "int")
 
 
 @reg("numpy.unique", "numpy.setdiff1d", "numpy.intersect1d", "numpy.union1d")
 def np_unique(interp, name, args, kw, st, node):
     base = name.rsplit(".", 1)[1]
-    return fresh_arr(T(base, *[arrv(a).term for a in args]), (Dim.unknown(base),), _L(*args), "int")
+    ext = Dim.unknown(base)
+    if base == "setdiff1d" and len(args) >= 2:
+        d = _complement_extent(arrv(args[0]), args[1])
+        if d is not None:
+            ext = d
+    return fresh_arr(T(base, *[arrv(a).term for a in args]), (ext,), _L(*args), "int")
 
 
 @reg("numpy.where", "numpy.nonzero")
@@ -1511,7 +1576,9 @@ def opaque_call(interp, fv, args, kw, st, node):
             x = arrv(args[0])
             sx, sv = shape(x), shape(vals) if vals is not None else None
             if sx and sv:
-                sh = (sx[0],) + tuple(sv[1:])
+                # interp1d (axis 0): query shape + value shape without the sample axis;
+                # LinearNDInterpolator: the last query axis holds the coordinates
+                sh = (tuple(sx) if cls.endswith("interp1d") else tuple(sx[:-1])) + tuple(sv[1:])
         return fresh_arr(T("apply", fv.term, tuple(a.term for a in args), kwterms(kw)), sh, labels)
     return V("unk", T("apply", fv.term, tuple(a.term for a in args), kwterms(kw)), labels=labels, orig=frozenset([FRESH]))
 
@@ -1620,9 +1687,17 @@ def _array_method(x, name):
             if not isinstance(tag, str):
                 tag = None
             cp = kw.get("copy")
-            if cp is not None and cp.has_const and cp.const is False:
+            if cp is not None and cp.has_const and cp.const is False and tag is None:
                 return x
-            return V("arr", x.term, shape=shape(x), orig=frozenset([FRESH]), labels=x.labels, loc=fresh_id(), extra=tag)
+            cur = x.extra if isinstance(x.extra, str) else None
+            term = x.term
+            if tag == "float32":
+                interp.event("shape-conflict", node, st, what="precision-loss: cast to reduced precision", a="astype", b="float32")
+                term = T("cast", x.term, tag)
+            elif tag in ("int", "bool") and cur not in ("int", "bool") and x.kind == "arr" and not (cur is None and _index_like(x)):
+                # float -> int / bool changes values (truncation / != 0): not an identity
+                term = T("cast", x.term, tag)
+            return V("arr", term, shape=shape(x), orig=frozenset([FRESH]), labels=x.labels, loc=fresh_id(), extra=tag)
         if name == "reshape":
             dims_v = args
             if len(args) == 1 and args[0].kind in ("tuple", "list") and args[0].items is not None:
@@ -1641,6 +1716,8 @@ def _array_method(x, name):
             new = x.replace(term=T(name, x.term, *[a.term for a in args]))
             interp.rebind(x, new, st)
             return vconst(None)
+        if name == "squeeze":
+            return np_squeeze(interp, "numpy.squeeze", [x] + list(args), kw, st, node)
         if name in ("item", "squeeze", "view", "conjugate", "clip", "repeat"):
             if name == "item":
                 return V("float", x.term, shape=(), labels=x.labels)
@@ -1803,6 +1880,11 @@ def ext_method(interp, recv, name, args, kw, st, node):
     interp.event("extcall", node, st, recv=recv, method=name, args=list(args), kwargs=dict(kw))
     if cls.endswith("RandomState") or cls.endswith("Generator"):
         interp.event("rng-draw", node, st, recv=recv, method=name)
+        if name not in ("get_state", "__getstate__", "bit_generator"):
+            # a draw advances the stream: the generator's state is threaded through its term, so a later
+            # draw from the same object is a different value and carries what the earlier draws depended on
+            adv = V("ext", T("drawn", recv.term, name, tuple(a.term for a in args), kwterms(kw)), extra=info, labels=labels, orig=recv.orig, loc=recv.loc)
+            interp.rebind(recv, adv, st)
         if name in ("randint", "integers", "choice", "permutation"):
             size = kw.get("size") or (args[1] if name == "randint" and len(args) > 2 else None)
             hi = dim_of(args[0]) if args else None
